@@ -38,6 +38,7 @@ simulation hypothesis `MacsOk` is a theorem (`TieA.Rx.Full.genOps_ok`, from `C08
 Builder X: the statement is for a frame whose MType is a DOWNLINK type (`hup : e.is_uplink = false`); since the fix
 "uplink-typed frames are ignored" the method returns `NoUpdate` at once for `e.is_uplink = true`
 (`tieA_handle_rx_uplink_typed`) and the model's view of such a buffer is `RxView.garbage`, not `RxView.data`.
+Builder Y: and carrying the session's own DevAddr if it passes the size test (`haddr`); a fitting frame addressed to another device is the early exit `tieA_handle_rx_other_devaddr` (`NoUpdate`, nothing changes; an oversized one ends the Class A procedure whatever its address).
 Abstract: parsing / MIC / decryption of the frame (inputs), the MAC-command iterator (the decoded commands of the
 well-formed prefix), `next_lower_datarate` and the region's methods (the model's).  A buffer the parser rejects:
 `handle_rx_unparsed`.  Proved in `Props/TieA/HandleRx.lean` + `Props/TieA/HandleRxFull.lean` (non-vacuity: the
@@ -47,7 +48,7 @@ theorem tieA_handle_rx_accept
     (rx : Gen.SessionRx.RadioBuffer) (dl : List Gen.SessionRx.Downlink) (maxp snr : Int) (ign : Bool)
     (e : Gen.SessionRx.EncryptedDataPayload)
     (hparse : rx.as_mut_for_read.parse = some e) (hup : e.is_uplink = false)
-    (haddr : e.fhdr.dev_addr = gs.devaddr)
+    (haddr : ¬ (e.as_bytes.length : Int) > maxp + 5 → e.fhdr.dev_addr = gs.devaddr)
     (hw : TieA.Rx.SessWF gs) (hmax : 0 ≤ maxp ∧ maxp ≤ 255) (hwire : 0 ≤ e.fhdr.fcnt)
     (hdec : ∀ f, Gen.SessionRx.next_fcnt_down gs.fcnt_down e.fhdr.fcnt = some f → e.validate_mic (TieA.Rx.nwkOf gs) f = true →
       ∃ d, rx.as_mut_for_read.decrypt_in_place (some (TieA.Rx.nwkOf gs)) (some (TieA.Rx.appOf gs)) f = some d ∧ TieA.Rx.DecWF TieA.Rx.Full.Stream d) :
